@@ -69,6 +69,9 @@ func LitShapes() []LitShape {
 	// 13-bit boundary: codes of exactly 12 and 13 bits
 	c12 := append([]int{'a', 256, 257}, seq(100, 100+510)...)
 	_ = c12
+	// maximum bit consumption: literals with 1..14-bit codes, end-of-block and the length symbols with 5 extra bits at 15 bits
+	mb := append(seq('a', 'a'+12), 256, 284, 283)
+	add("maxbits", mb, Skew(len(mb), 15), false)
 	m := append([]int{}, seq(0, 255)...)
 	m = append(m, 256, 257, 285)
 	add("skew-all-literals", m, Skew(len(m), 6), false)
@@ -89,6 +92,8 @@ func DistShapes() []DistShape {
 	sk := []int{0, 1, 2, 3, 4, 8, 16, 29, 28, 20, 10, 5, 6, 7, 9, 11}
 	add("skew15", sk, Skew(len(sk), 15))
 	add("cluster11", seq(0, 29), Skew(30, 7))
+	// maximum bit consumption: the two distance symbols with 13 extra bits get the 15-bit codes
+	add("maxbits", append(seq(0, 13), 28, 29), Skew(16, 15))
 	return out
 }
 
@@ -144,17 +149,39 @@ func SeqAlphabet(lit, dist *Code) []Sym {
 	if longest >= 0 && longest != shortest {
 		out = append(out, Sym{Kind: SymLit, Lit: longest})
 	}
-	type ld struct{ l, d int }
-	cands := []ld{{3, 1}, {258, 1}, {4, 2}, {11, 5}, {3, 24577}, {258, 32768}, {12, 3}}
-	n := 0
-	for _, c := range cands {
-		ls, _, _ := LenSym(c.l, false)
-		ds, _, _ := DistSym(c.d)
-		if lit.Has(ls) && dist.Has(ds) {
-			out = append(out, Sym{Kind: SymMatch, Len: c.l, Dist: c.d})
-			n++
-			if n >= 4 {
-				break
+	// matches built from the symbols the codes really have: the length symbols with the shortest and the longest
+	// code (first length of the one, last length = maximal extra bits of the other) x the distance symbols with the
+	// shortest and the longest code (first distance of the one, last distance of the other)
+	pick := func(c *Code, lo, hi int) (short, long int) {
+		short, long = -1, -1
+		for s := lo; s <= hi && s < len(c.Lens); s++ {
+			if c.Lens[s] == 0 {
+				continue
+			}
+			if short < 0 || c.Lens[s] < c.Lens[short] {
+				short = s
+			}
+			if long < 0 || c.Lens[s] >= c.Lens[long] {
+				long = s
+			}
+		}
+		return
+	}
+	ls, ll := pick(lit, 257, 285)
+	ds, dl := pick(dist, 0, 29)
+	if ls >= 0 && ds >= 0 {
+		l1, _ := LenRange(ls)
+		_, l2 := LenRange(ll)
+		d1, _ := DistRange(ds)
+		_, d2 := DistRange(dl)
+		if d2 > 32768 {
+			d2 = 32768
+		}
+		seen := map[[2]int]bool{}
+		for _, m := range [][2]int{{l1, d1}, {l2, d2}, {l1, d2}, {l2, d1}} {
+			if !seen[m] {
+				seen[m] = true
+				out = append(out, Sym{Kind: SymMatch, Len: m[0], Dist: m[1]})
 			}
 		}
 	}
